@@ -30,7 +30,8 @@ theorem nLive_poll_loading (v : Option Val) (l : List Aw) (i : Nat) :
   | nil => rfl
   | cons a as ih =>
     cases i with
-    | zero => simp [modifyAt, nLive, List.filter_cons, pollAw]; split <;> simp
+    | zero =>
+      cases hk : a.kind <;> cases hd : a.done <;> simp [modifyAt, nLive, List.filter_cons, pollAw, hk, hd]
     | succ i =>
       simp only [modifyAt, nLive, List.filter_cons] at ih ⊢
       split <;> simp [ih]
@@ -189,6 +190,11 @@ theorem SInv.pollA {s : State} (h : SInv s) (i : Nat) : SInv (pollA s i) := by
 theorem SInv.toFetch {s : State} (h : SInv s) (hpc : s.pc = .waiting) : SInv (fetchState s) := by
   obtain ⟨p1, p2, p3, p4, p5, p6⟩ := h
   have hi : s.idsHeld = 0 := p2 (by simp [hpc])
+  have hn : nLive (if s.isLocal = true then s.aws ++ [({ kind := .tick, tag := s.nf + 1 } : Aw)] else s.aws)
+      = nLive s.aws := by
+    split
+    · rw [nLive_append]; simp [nLive]
+    · rfl
   rcases fetchState_cases s with ⟨_, _, _, _, heq⟩ | heq <;> rw [heq] <;> constructor <;> simp_all <;> omega
 
 theorem SInv.dIter {s : State} (h : SInv s) (hpc : s.pc = .waiting) :
@@ -201,11 +207,11 @@ theorem SInv.dIter {s : State} (h : SInv s) (hpc : s.pc = .waiting) :
     by_cases hn : (chk s).2 = true ∨ (chk s).1.firstRun = true
     · rw [if_pos hn]
       have hf := h.toFetch hpc
-      by_cases hr : (fetchState s).curStatus = .ready
+      by_cases hr : (fetchState s).tickFired = true ∧ (fetchState s).curStatus = .ready
       · rw [if_pos hr]
         exact ⟨hf.applyResult.1, fun _ => hf.applyResult.2⟩
       · rw [if_neg hr]
-        exact ⟨hf, fun hh => by simp at hh⟩
+        exact ⟨hf.of_same ⟨rfl, rfl, rfl, rfl, rfl, rfl, rfl, rfl, rfl⟩, fun hh => by simp at hh⟩
     · rw [if_neg hn]
       have hc2 : (chk s).2 = false := by
         cases h2 : (chk s).2
@@ -294,6 +300,9 @@ theorem SInv.step {s : State} (h : SInv s) (e : Event) : SInv (step s e) := by
     split
     · rename_i t _
       cases t
+      · show SInv (pollT0 s)
+        unfold pollT0
+        split <;> exact h.of_same ⟨rfl, rfl, rfl, rfl, rfl, rfl, rfl, rfl, rfl⟩
       · exact h.pollD
       · exact h.of_same (SameSusp.trans (b := { s with eWoken := false })
           ⟨rfl, rfl, rfl, rfl, rfl, rfl, rfl, rfl, rfl⟩ (eLoop_susp 4 _))
